@@ -7,6 +7,9 @@
 void neatvi_verif_boundary(void);
 void neatvi_verif_draw(int kind, int a, int b, int c, int d);
 #define main vi_main
+#define linecount lbuf_linecount	/* both files have a static function of this name */
+#include "lbuf.c"
+#undef linecount
 #include "vi.c"
 #undef main
 #include "common.h"
@@ -316,11 +319,18 @@ static FILE *dumpf;
 static int nbound;
 static int opt_screen;
 
+/* the dirty flag without the side effect of lbuf_modified() (which starts a new undo step) */
+static int dirty_peek(struct lbuf *lb)
+{
+	int seq = lb->hist_u ? lb->hist[lb->hist_u - 1].seq : lb->useq_last;
+	return seq != lb->useq_zero;
+}
+
 static void dump_state(int mark)
 {
 	char *t = lbuf_cp(xb, 0, lbuf_len(xb));
 	int i, first = 1;
-	fprintf(dumpf, "%s%c|%d|%d|%d|%d|%d|%d|%d|", nbound++ ? "/" : "", mark, kpos, xrow, xoff, xtop, xleft, lbuf_len(xb), !!lbuf_modified(xb));
+	fprintf(dumpf, "%s%c|%d|%d|%d|%d|%d|%d|%d|", nbound++ ? "/" : "", mark, kpos, xrow, xoff, xtop, xleft, lbuf_len(xb), dirty_peek(xb));
 	hx_put(dumpf, t, strlen(t));
 	free(t);
 	fputc('|', dumpf);
